@@ -61,6 +61,10 @@ CHECKS = {
  "C10": dict(engine="seqmc", technique="exhaustive input enumeration over a small span universe vs brute-force membership formulas",
              text="Every span list (3-point universe len<=3 quick; 4-point and longer thorough) through all constructor forms, every ordered pair of constructed contents x all 4x4 relation "
                   "pairs x 13 operators against the docstring definitions evaluated by brute force with harness-side relations.", ref="5/C10", note=SEQ_NOTE),
+ "C11": dict(engine="seqmc", technique="exhaustive enumeration of file contents over a 4-character alphabet x variants x index sources + explicit-state exploration of read histories vs str.split",
+             text="Every file content over {a, e-acute, LF, CR} of length <=4 (quick) / <=6 plus buffer-boundary and whitespace probe files, 8 file classes, index built / list / index file / every "
+                  "sub-list and permutation of offsets (<=3); len, every index in [-n-2,n+1], slices, index iterables, full iterations; read histories (index, slice, two iterators, next, list) "
+                  "to depth 3 (quick) / 5 by BFS with state dedup; reference content.split('\\n').", ref="5/C11", note=SEQ_NOTE),
  "C12": dict(engine="seqmc", technique="explicit-state exploration of edit histories on the real file objects vs a Python list (depth-bounded, state dedup)",
              text="All edit sequences (10 mutators, all indices in [-n-1,n], 3 strings) to depth 2-3 quick / 3-4 thorough from 66 source files x 4 variants; after every step observation, len, "
                   "items, slices, dirty flag and source bytes vs a list model; in every distinct state save() with 5 line endings (bytes) and reopen.", ref="5/C12", note=SEQ_NOTE),
